@@ -27,8 +27,8 @@ ASSUMPTIONS = [
     "OAUTHBEARER: when an authorisation id is given, either identity in a= is accepted",
     "the server accepts exactly the credentials it is configured with",
 ]
-FLOORS = {"quick": {"connects": 6000, "mech:PLAIN": 500, "mech:LOGIN": 500,
-                    "mech:OAUTHBEARER": 500, "mech:DIGEST-MD5": 500, "no-mechanism": 500},
+FLOORS = {"quick": {"connects": 18000, "mech:PLAIN": 600, "mech:LOGIN": 600,
+                    "mech:OAUTHBEARER": 600, "mech:DIGEST-MD5": 600, "no-mechanism": 600},
           "thorough": {"connects": 1800000, "mech:PLAIN": 100000, "mech:LOGIN": 100000,
                        "mech:OAUTHBEARER": 100000, "mech:DIGEST-MD5": 100000,
                        "no-mechanism": 100000}}
@@ -44,7 +44,7 @@ AUTHZ = ["", "", "admin", "ädmin", "a,b=c"]
 
 
 def plan(tier, seed):
-    n = 8000 if tier == "quick" else 2000000
+    n = 20000 if tier == "quick" else 2000000
     k = 16 if tier == "quick" else 64
     return [{"w": "cfg", "n": e - s, "rs": seed * 1000003 + i}
             for i, (s, e) in enumerate(split(n, k))]
